@@ -250,6 +250,27 @@ def families(env):
         return build
     for k_, (ls_, op_) in DIRECT.items():
         F["direct:" + k_] = direct(ls_, op_)
+    # as many symbols as levels.  Their names are str objects whose comparisons are Python-level calls, so that a
+    # linear search through the names (invisible to a call count otherwise: it runs in C) is counted as work
+    class CountedName(str):
+        __slots__ = ()
+
+        def __eq__(self, other):
+            return str.__eq__(self, other)
+
+        def __ne__(self, other):
+            return str.__ne__(self, other)
+
+        def __hash__(self):
+            return str.__hash__(self)
+
+    def many_symbols(n, pattern):
+        t = bl[0]
+        for i in range(n):
+            p_i = mgr.Symbol(CountedName("ms%d" % i), B)
+            t = mgr.And(mgr.Or(t, p_i), mgr.Not(mgr.And(t, p_i))) if pattern != "chain" else mgr.Or(mgr.Not(t), p_i)
+        return t
+    F["many-symbols"] = many_symbols
     # mixed Int/Real with casts and constants on the way (x + 0, x * 1 are folded by the simplifier)
     #  - an ITE between two levels, so that the folded result never nests Plus directly in Plus)
     F["toreal-consts"] = term_fam(il, lambda a, b: mgr.Ite(bl[0], mgr.Times(a, one), mgr.Minus(b, mgr.Int(0))),
@@ -335,7 +356,10 @@ OUTPUT_PER_NODE = 4000      # characters of SMT-LIB text per distinct node that 
 FAMILY_SKIP = {"and-direct": {"simplify", "propagate-toplevel"}, "or-direct": {"simplify", "propagate-toplevel"},
                # one flat conjunction of n observations: simplify / nnf / ... rebuild an n-ary And per call (linear),
                # the interesting operation is the construction
-               "bv-ite-observed": set()}
+               "bv-ite-observed": set(),
+               # free symbols / atoms are memoised per node as sets: with as many symbols as nodes the *results* add up
+               # to a quadratic size (one visit per node all the same); not measured on this family
+               "many-symbols": {"free_vars", "atoms", "prenex"}}     # (prenex asks for the free symbols of every And / Or)
 
 
 NON_REWRITING = {"substitute", "free_vars", "atoms", "is_qf", "get_types", "get_logic", "size-depth", "dag-print",
@@ -467,7 +491,7 @@ FAMS = ["and", "or", "implies", "iff", "not-and", "ite-bool-cond", "ite-bool-the
         "times-ite", "ite-int-then", "ite-int-else", "bvadd", "bvxor-neg", "bvmul-lshr", "bv-ite-then", "bv-ite-both", "bv-ite-direct", "bv-ite-tower", "int-ite-tower",
         "bvextract-concat", "store-select", "times-div", "select-const-store", "uf-apply", "str-concat-replace",
         "toreal-consts", "bv-rot-ext-comp", "and-direct", "or-direct", "div-by-zero", "str-ops-only", "bv-ite-observed", "int-div", "with-rejected-constructions",
-        "with-rejected-constructions-str", "with-rejected-constructions-arr"]
+        "with-rejected-constructions-str", "with-rejected-constructions-arr", "many-symbols"]
 
 
 def main():
